@@ -57,7 +57,7 @@ def selftest(chk, trace, events):
 
 
 def c13(chk, opts):
-    expect = {"c2u": 52, "u2c": 52, "ctext": 52, "cpad": 260, "cparts": 52, "cparse": (1 + 128 + 2 * 128 * 128,), "rank": 13, "suit": 4,
+    expect = {"c2u": (52,), "u2c": (52,), "convsum": 1, "ctext": 52, "cpad": 260, "cparts": 52, "cparse": (1 + 128 + 2 * 128 * 128,), "rank": 13, "suit": 4,
               "rchar": 128, "schar": 128, "cmp": 169 + 16 + 2704, "range": 4 * 91 + 2 * 10 + 2}
     return _common(chk, opts, "c13", expect,
                    "complete finite table: 52 cards x (word, text, parts), all 16,513 ASCII strings of length <= 2 as a card, "
